@@ -77,6 +77,13 @@ def gen_cases(tier, seed):
 
 
 def reference(case):
+    """cached per case (computed once, inside the parallel worker)"""
+    if "_ref" not in case:
+        case["_ref"] = _reference(case)
+    return case["_ref"]
+
+
+def _reference(case):
     """independent evaluation in 60-digit decimal arithmetic of what each particle must have gained:
     potential  sum_j q_j / r_ij,  force  sum_j q_i q_j (x_j - x_i) / r_ij^3   (returns values and the sum of |terms|)"""
     ns, nt, parts, routine = case["ns"], case["nt"], case["parts"], case["routine"]
@@ -154,6 +161,11 @@ def run(rep, tier, seed, replay, proof_ok, proof_msg):
             rc, out, err = common.run_harness(path, text)
             rcl, outl, errl = common.run_driver(text)
             return cs, common.split_cases(out), common.split_cases(outl), err
+        # the 60-digit references are pure functions of the inputs: computed once per case, in worker processes
+        from concurrent.futures import ProcessPoolExecutor
+        with ProcessPoolExecutor(max_workers=common.NCPU) as ex:
+            for c, ref in zip(cases, ex.map(_reference, cases, chunksize=4)):
+                c["_ref"] = ref
         chunks = [cases[i:i + 12] for i in range(0, len(cases), 12)]
         for cs, cpp, lean, err in common.run_parallel(chunk_run, chunks):
             for c in cs:
